@@ -101,6 +101,13 @@ class FieldFlow:
                     fo = field_of(pl, adt)
                     if fo:
                         k = "RMW" if kind == "refmut" else "R"
+                        # `self.f.clear()` on a std collection / String empties the field whatever it held: a whole re-initialisation, not a read
+                        tt = b["term"]
+                        if k == "RMW" and fo[1] and tt["k"] == "call" and tt.get("name") == "clear" and tt["args"] and not s["place"]["proj"] \
+                                and (op_place(tt["args"][0]) or {}).get("local") == s["place"]["local"] and not (op_place(tt["args"][0]) or {}).get("proj") \
+                                and (tt.get("self_adt") or "").startswith(("std::vec::Vec", "std::string::String", "std::collections::", "serde_json::Map", "indexmap::")):
+                            ev.append((i, "W", fo[0], "clear()", s.get("line")))
+                            continue
                         ev.append((i, k, fo[0], "borrow/read", s.get("line")))
                 if "aggregate" in rv and rv["aggregate"].get("kind") == "closure":
                     # a closure capturing (a reference to) the whole struct: apply its summary at creation
